@@ -28,6 +28,10 @@ const raceReps = 40
 func runRace(c Case) (*core.Violation, int) {
 	text := c.Prog.Text()
 	p := exec.Parse(text)
+	if c.RawText != "" {
+		text = c.RawText
+		p = exec.ParseLoose(text)
+	}
 	if !p.InDomain {
 		return nil, 0
 	}
